@@ -324,6 +324,15 @@ const TEMPLATES: &[&str] = &[
     "{wallet {wallet}",
     "J'adresse \u{e9}t\u{e9} {wallet} \u{1F680} fin",
     "line one\nline two {wallet}\n",
+    // multi-byte UTF-8 (2, 3 and 4 bytes per character), also touching the placeholder
+    "\u{e9}{wallet}\u{f1}",
+    "Mi direcci\u{f3}n: {wallet} \u{2744}",
+    "\u{65e5}\u{672c}{wallet}\u{8a9e} \u{2014} {wallet}",
+    "{wallet}\u{1F680}\u{1D518}",
+    "\u{2744}{wallet}",
+    "\u{1F9CA}\u{e9}\u{2744} {wallet} \u{e9}\u{2744}\u{1F9CA}",
+    // leading / trailing whitespace (ASCII and U+00A0), mixed case
+    " \t{wallet} Claims THIS \u{a0}\n",
 ];
 const WALLETS: &[&str] = &["stars1claimant", "stars1qqqqqqqqqqqqqqqqqqqqqqqqqqqqqqqqqqqqqq", "stars1other", "abc", "stars1claimanu"];
 
@@ -342,6 +351,111 @@ fn text_for(spec: &WorldSpec, sender: &str) -> String {
 fn valid_sig(spec: &WorldSpec, k: &EthKey, sender: &str) -> [u8; 65] {
     personal_sign(k, &text_for(spec, sender))
 }
+/// ECDSA signature by `k` directly over a 32-byte digest (no personal-sign framing), r||s||v with v in {27,28}
+fn sign_digest(k: &EthKey, digest: [u8; 32]) -> [u8; 65] {
+    let sig = k.wallet.sign_hash(ethers_core::types::H256::from(digest));
+    let v = sig.to_vec();
+    let mut out = [0u8; 65];
+    out.copy_from_slice(&v);
+    out
+}
+/// Digests a plausible slip in the personal-sign framing would hash instead of
+/// keccak("\x19Ethereum Signed Message:\n" + <byte length, decimal> + text).  Only those that
+/// differ from the genuine digest are returned: a signature by the listed key over any of
+/// them is NOT a personal-sign signature over the claim text and must be refused.
+fn near_miss_digests(template: &str, text: &str) -> Vec<(&'static str, [u8; 32])> {
+    const P: &[u8] = b"\x19Ethereum Signed Message:\n";
+    let genuine = ind_keccak(&ind_eth_preimage(text));
+    let tb = text.as_bytes();
+    let with = |prefix: &[u8], len: &[u8], body: &[u8]| -> [u8; 32] {
+        let mut v = prefix.to_vec();
+        v.extend_from_slice(len);
+        v.extend_from_slice(body);
+        ind_keccak(&v)
+    };
+    let dec = |n: usize| n.to_string().into_bytes();
+    let mut out: Vec<(&'static str, [u8; 32])> = vec![
+        ("nearmiss-len-chars", with(P, &dec(text.chars().count()), tb)),
+        ("nearmiss-len-utf16", with(P, &dec(text.encode_utf16().count()), tb)),
+        ("nearmiss-len-plus1", with(P, &dec(tb.len() + 1), tb)),
+        ("nearmiss-len-minus1", with(P, &dec(tb.len().saturating_sub(1)), tb)),
+        ("nearmiss-len-of-template", with(P, &dec(template.len()), tb)),
+        ("nearmiss-len-of-template-chars", with(P, &dec(template.chars().count()), tb)),
+        ("nearmiss-len-hex", with(P, format!("{:x}", tb.len()).as_bytes(), tb)),
+        ("nearmiss-len-0xhex", with(P, format!("{:#x}", tb.len()).as_bytes(), tb)),
+        ("nearmiss-len-padded", with(P, format!("{:04}", tb.len()).as_bytes(), tb)),
+        ("nearmiss-len-byte", with(P, &[tb.len() as u8], tb)),
+        ("nearmiss-len-u32be", with(P, &(tb.len() as u32).to_be_bytes(), tb)),
+        ("nearmiss-len-u64le", with(P, &(tb.len() as u64).to_le_bytes(), tb)),
+        ("nearmiss-len-missing", with(P, b"", tb)),
+        ("nearmiss-len-then-newline", with(P, format!("{}\n", tb.len()).as_bytes(), tb)),
+        ("nearmiss-len-then-space", with(P, format!("{} ", tb.len()).as_bytes(), tb)),
+        ("nearmiss-no-prefix", ind_keccak(tb)),
+        ("nearmiss-prefix-no-newline", with(&P[..P.len() - 1], &dec(tb.len()), tb)),
+        ("nearmiss-prefix-no-x19", with(&P[1..], &dec(tb.len()), tb)),
+        ("nearmiss-prefix-x18", with(b"\x18Ethereum Signed Message:\n", &dec(tb.len()), tb)),
+        ("nearmiss-prefix-bitcoin", with(b"\x18Bitcoin Signed Message:\n", &dec(tb.len()), tb)),
+        ("nearmiss-prefix-lowercase", with(b"\x19ethereum signed message:\n", &dec(tb.len()), tb)),
+        ("nearmiss-prefix-crlf", with(b"\x19Ethereum Signed Message:\r\n", &dec(tb.len()), tb)),
+        ("nearmiss-hash-of-hash-as-message", with(P, b"32", &ind_keccak(tb))),
+        ("nearmiss-hex-of-hash-as-message", with(P, b"64", hex::encode(ind_keccak(tb)).as_bytes())),
+        ("nearmiss-double-keccak", ind_keccak(&genuine)),
+        ("nearmiss-text-utf16le", {
+            let u: Vec<u8> = text.encode_utf16().flat_map(|c| c.to_le_bytes()).collect();
+            with(P, &dec(u.len()), &u)
+        }),
+        ("nearmiss-text-latin1-lossy", {
+            let u: Vec<u8> = text.chars().map(|c| if (c as u32) < 256 { c as u8 } else { b'?' }).collect();
+            with(P, &dec(u.len()), &u)
+        }),
+        ("nearmiss-text-trailing-nul", {
+            let mut u = tb.to_vec();
+            u.push(0);
+            with(P, &dec(u.len()), &u)
+        }),
+        ("nearmiss-sha256", {
+            use sha2::{Digest, Sha256};
+            let mut h = Sha256::new();
+            h.update(ind_eth_preimage(text));
+            let mut o = [0u8; 32];
+            o.copy_from_slice(&h.finalize());
+            o
+        }),
+    ];
+    // genuine framing over a text that a normalising slip would hash instead (and the two
+    // mixed forms: length of one, body of the other)
+    let transforms: Vec<(&'static str, String)> = vec![
+        ("nearmiss-text-trimmed", text.trim().to_string()),
+        ("nearmiss-text-trim-end", text.trim_end().to_string()),
+        ("nearmiss-text-trim-start", text.trim_start().to_string()),
+        ("nearmiss-text-lowercase", text.to_lowercase()),
+        ("nearmiss-text-uppercase", text.to_uppercase()),
+        ("nearmiss-text-ascii-lowercase", text.to_ascii_lowercase()),
+        ("nearmiss-text-crlf", text.replace('\n', "\r\n")),
+        ("nearmiss-text-newlines-to-spaces", text.replace('\n', " ")),
+        ("nearmiss-text-collapsed-whitespace", text.split_whitespace().collect::<Vec<_>>().join(" ")),
+        ("nearmiss-text-escaped-newlines", text.replace('\n', "\\n")),
+        ("nearmiss-text-json-quoted", format!("\"{}\"", text)),
+        ("nearmiss-text-bom", format!("\u{feff}{}", text)),
+        ("nearmiss-text-ascii-only", text.chars().filter(|c| c.is_ascii()).collect()),
+        ("nearmiss-text-hex-of-utf8", hex::encode(tb)),
+        ("nearmiss-text-0xhex-of-utf8", format!("0x{}", hex::encode(tb))),
+    ];
+    for (tag, t2) in &transforms {
+        let b2 = t2.as_bytes();
+        out.push((tag, with(P, &dec(b2.len()), b2)));
+        if b2.len() != tb.len() {
+            out.push((tag, with(P, &dec(tb.len()), b2)));
+            out.push((tag, with(P, &dec(b2.len()), tb)));
+        }
+    }
+    out.retain(|(_, d)| *d != genuine);
+    // one signature per distinct digest
+    let mut seen = BTreeSet::new();
+    out.retain(|(_, d)| seen.insert(*d));
+    out
+}
+
 fn op(sender: &str, addr: &str, sig: &str, tag: &str) -> ClaimOp {
     ClaimOp { sender: sender.into(), eth_address: addr.into(), eth_sig: sig.into(), tag: tag.into() }
 }
@@ -682,6 +796,30 @@ fn gen_cases(a: &Args) -> Vec<Case> {
         ops.push(op(w1, &lower(1), &hex::encode(base), "valid"));
         cases.push(Case { label: "probe:bitflips".into(), spec, ops });
     }
+    // 2d'. near-miss digests: the listed key signs what a plausible slip in the personal-sign
+    // framing would hash (length in characters / UTF-16 units / off by one / of the template,
+    // other renderings of the length, missing or altered prefix, hash-as-message, other text
+    // encodings, other hash).  None of them is a personal-sign signature over the claim text;
+    // the genuine one stays in the stream (accepted), on ASCII and on 2-, 3- and 4-byte UTF-8 texts.
+    for (ti, t) in TEMPLATES.iter().enumerate() {
+        let mut spec = WorldSpec::basic(vec![lower(0), lower(1)], 1_000);
+        spec.template = t.to_string();
+        spec.inst_funds = 100_000_000 + 80 * spec.airdrop_amount;
+        let mut ops = vec![];
+        let wallets: &[&str] = if thorough { &WALLETS[..3] } else { &WALLETS[..1] };
+        for (wi, w) in wallets.iter().enumerate() {
+            let ki = wi % 2;
+            let text = text_for(&spec, w);
+            for (tag, d) in near_miss_digests(&spec.template, &text) {
+                ops.push(op(w, &lower(ki), &hex::encode(sign_digest(&k[ki], d)), tag));
+            }
+            ops.push(op(w, &lower(ki), &hex::encode(valid_sig(&spec, &k[ki], w)), if text.is_ascii() { "valid" } else { "valid-non-ascii-text" }));
+            // the genuine digest signed directly is the same thing as personal_sign
+            let genuine = ind_keccak(&ind_eth_preimage(&text));
+            ops.push(op(w, &lower(ki), &hex::encode(sign_digest(&k[ki], genuine)), if text.is_ascii() { "valid" } else { "valid-non-ascii-text" }));
+        }
+        cases.push(Case { label: format!("probe:near-miss-digests-template{}", ti), spec, ops });
+    }
     // 2e. limit boundary on every template, several addresses interleaved, total-paid accounting
     for (ti, t) in TEMPLATES.iter().enumerate() {
         for limit in [1u32, 2] {
@@ -747,6 +885,11 @@ fn gen_cases(a: &Args) -> Vec<Case> {
                     let b = rng.below(520) as usize;
                     s[b / 8] ^= 0x80 >> (b % 8);
                     op(w, &addr, &hex::encode(s), if b < 256 { "bitflip-r" } else if b < 512 { "bitflip-s" } else { "bitflip-v" })
+                }
+                4 => {
+                    let nm = near_miss_digests(&spec.template, &text_for(&spec, w));
+                    let (tag, d) = nm[rng.below(nm.len() as u64) as usize];
+                    op(w, &addr, &hex::encode(sign_digest(&k[ki], d)), tag)
                 }
                 3 => match last.clone() {
                     Some(l) => ClaimOp { tag: "repeat-previous".into(), ..l },
